@@ -98,6 +98,45 @@ func n09GenCluster(t *rapid.T) *n09Case {
 		}
 		firstJoin = -1
 	}
+	if sc := rapid.IntRange(0, 99).Draw(t, "scenario"); sc >= 30 && sc < 58 && firstJoin >= 0 {
+		// a follower whose log append falls far behind a burst of the leader: joined and in step, then 300..600 records
+		// while its log mutex is held, a check, and (mostly) a restart of that follower from its own directory
+		c.Ring, c.RingMax = 65536, 262144 // 1024 records: the burst stays in the ring
+		if !joined[0] {
+			c.Ops = append(c.Ops, n09Op{K: "join", F: 0})
+			joined[0] = true
+		}
+		c.Ops = append(c.Ops, n09Op{K: "sync"}, n09Op{K: "fburst", F: 0, N: rapid.IntRange(300, 600).Draw(t, "burstN")}, n09Op{K: "sync"})
+		if rapid.IntRange(0, 3).Draw(t, "restartFollower") > 0 {
+			c.Ops = append(c.Ops, n09Op{K: "stop", F: 0}, n09GenLock(t, keys), n09Op{K: "join", F: 0}, n09Op{K: "sync"})
+		}
+		firstJoin = -1
+	} else if sc >= 60 && sc < 80 && firstJoin >= 0 {
+		// holds that are dead by the time a log file is read with the expiry filter: value-carrying records with a 1 s
+		// expiry, more value records behind them in the same file, a pause of wall time, then the follower joins by file
+		// transfer - or, if it was there from the start, is restarted from its own directory
+		stale := rapid.Bool().Draw(t, "expiryStale")
+		if stale && !joined[0] {
+			c.Ops = append(c.Ops, n09Op{K: "join", F: 0})
+			joined[0] = true
+		}
+		c.Ops = append(c.Ops, n09Op{K: "shortlived", N: rapid.IntRange(1, 3).Draw(t, "shortN")})
+		for j, n := 0, rapid.IntRange(2, 4).Draw(t, "behind"); j < n; j++ {
+			op := n09GenLock(t, keys)
+			op.Flag, op.V = 0, n09GenVal(t)
+			if op.V.Op == "incr" {
+				op.V = &n09Val{Op: "set", B: []byte{byte(j), 0x77}}
+			}
+			op.Key, op.Id = j%keys, j%3
+			c.Ops = append(c.Ops, op)
+		}
+		if stale {
+			c.Ops = append(c.Ops, n09Op{K: "sync"}, n09Op{K: "stop", F: 0})
+		}
+		c.Ops = append(c.Ops, n09Op{K: "pause", N: 3200}, n09Op{K: "join", F: 0}, n09Op{K: "sync"})
+		joined[0] = true
+		firstJoin = -1
+	}
 	for i := 0; i < nops; i++ {
 		if i == firstJoin && !joined[0] {
 			c.Ops = append(c.Ops, n09Op{K: "join", F: 0})
@@ -221,6 +260,8 @@ func n09ClusterClasses(info n09Info) []string {
 	add(info.leaderRestarts > 0, "leader restarted")
 	add(info.bigValues > 0, "value larger than the sender's batch buffer (or at its boundary)")
 	add(info.holds > 0, "burst sent while the leader's socket write was held")
+	add(info.followerBursts > 0, "burst of 300..600 records while the follower's log append was held")
+	add(info.shortLived > 0 && info.pauses > 0, "value-carrying holds expired before a log file was read (join / follower restart)")
 	add(info.staleJoins > 0, "rejoin with stale directory")
 	add(info.wipeJoins > 0, "rejoin with emptied directory")
 	add(info.syncs > 1, "intermediate quiescence checks")
